@@ -359,9 +359,11 @@ def check(ctx):
     e2, e5 = ("expr", "b = 2;"), ("expr", "b = 5;")
     inner = [("switch", [("case 2:", [e5, ("break",)]), ("default:", [("break",)])]), ("if", ("braced", [e5])), ("while", ("braced", [e5])),
              ("do", ("braced", [e5])), ("for", ("braced", [e5])), ("ifelse", ("braced", [e5]), ("braced", [e2]))]
+    extra = []
     for c in inner:
-        shapes.append(("switch", [("case 1:", [e2, c, ("break",)]), ("default:", [("break",)])]))
-        shapes.append(("switch", [("case 1:", [c, ("break",)]), ("case 3:", [("block", [c, ("break",)])]), ("default:", [("break",)])]))
+        extra.append(("switch", [("case 1:", [e2, c, ("break",)]), ("default:", [("break",)])]))
+        extra.append(("switch", [("case 1:", [c, ("break",)]), ("case 3:", [("block", [c, ("break",)])]), ("default:", [("break",)])]))
+    shapes += extra
     if quick:
         ics, iwts, tss = ("2", "3", "4", "8"), ("0", "2"), ("4", "8")
     else:
@@ -374,7 +376,7 @@ def check(ctx):
         prod.append(dict(prod[-1], output_tab_size="4"))
     jobs = []
     nfun = 0
-    d1 = set(cgen.render_one(x) for x in cgen.stmts(1, 2))
+    d1 = set(cgen.render_one(x) for x in cgen.stmts(1, 2)) | set(cgen.render_one(x) for x in extra)   # 'extra' gets the full product
     small = [{"indent_columns": a, "indent_with_tabs": b, "output_tab_size": c} for a in ("2", "3", "4", "8") for b in ("0", "2") for c in ("4", "8")]
     for lang in ("C", "CPP", "JAVA"):
         java = lang == "JAVA"
